@@ -5,8 +5,9 @@ PATHS = ["/a", "/b", "/d/c", "/d/e", "/d/g/h", "/k/l", "/m"]
 PADS = [0, 0, 7, 300, 5000, 70000]
 
 
-def gen_program(rng, nfun=None, big=True):
-    """A root (plain) function evaluated with dds.eval plus data functions / kept targets below it."""
+def gen_program(rng, nfun=None, big=True, root_kept=False):
+    """A root function (plain, evaluated with dds.eval - or, with root_kept, a data function that is called
+    directly, so that the evaluation itself has a requested path) plus data functions / kept targets below it."""
     n = nfun or rng.randint(2, 6)
     names = [f"f{i}" for i in range(n)]
     paths = list(PATHS)
@@ -20,6 +21,9 @@ def gen_program(rng, nfun=None, big=True):
         if i == 0:
             f["ret"] = "tuple"
             f["pad"] = 0
+            if root_kept:
+                f["kind"] = "data"
+                f["path"] = "/top/out"
         if kind == "data":
             f["path"] = paths.pop()
         if kind == "target":
